@@ -1090,7 +1090,7 @@ impl<'a> Model<'a> {
     // SUBSTITUTE(text, old_text, new_text, [instance_num])
     pub(crate) fn fn_substitute(&mut self, args: &[Node], cell: CellReferenceIndex) -> CalcResult {
         let arg_count = args.len();
-        if !(2..=4).contains(&arg_count) {
+        if !(3..=4).contains(&arg_count) {
             return CalcResult::new_args_number_error(cell);
         }
         let text = match self.get_string(&args[0], cell) {
